@@ -15,7 +15,8 @@ ASSUMPTIONS = ["bit-for-bit comparisons use numpy.array_equal on t and y"]
 
 
 def rhs(t, y, k=1.0):
-    return np.array([y[1], -k * np.sin(y[0]) - 0.05 * y[1]])
+    # non-autonomous, with a time-dependent Jacobian (so that a Jacobian cached at another time matters)
+    return np.array([y[1], -k * np.sin(y[0]) * (1.0 + 0.5 * np.sin(3.0 * t)) - 0.05 * y[1]])
 
 
 def ev_cross(t, y, **kw):
@@ -34,7 +35,7 @@ class Boom(Exception):
 def gen(rng):
     t0, tf = rng.choice([(0.0, 2.0), (1.0, 3.5), (-1.0, 1.0), (2.0, 0.0), (0.5, -1.5)])
     dt = abs(tf - t0) / rng.choice([8, 13, 20]) * rng.choice([1, -1])
-    method0 = rng.choice(["RK4Solver", "RK45CKSolver", "DOPRI45", "MidpointSolver", "SymplecticEulerSolver", "BackwardEuler"])
+    method0 = rng.choice(["RK4Solver", "RK45CKSolver", "DOPRI45", "MidpointSolver", "SymplecticEulerSolver", "BackwardEuler", "RadauIIA5", "LobattoIIIC4"])
     ops = []
     for _ in range(rng.randint(2, 6)):
         r = rng.random()
@@ -49,7 +50,7 @@ def gen(rng):
         elif r < 0.66:
             ops.append(("atol", rng.choice([1e-6, 1e-9])))
         elif r < 0.74:
-            ops.append(("method", rng.choice(["RK4Solver", "RK45CKSolver", "HeunsSolver", "SymplecticEulerSolver", "ABAs5o6HSolver"])))
+            ops.append(("method", rng.choice(["RK4Solver", "RK45CKSolver", "HeunsSolver", "SymplecticEulerSolver", "ABAs5o6HSolver", "BackwardEuler", "RadauIIA5"])))
         elif r < 0.78:
             ops.append(("tf", tf + (tf - t0) * 0.5))
         elif r < 0.82:
